@@ -29,6 +29,8 @@ THEOREMS = [
     "Aio.C18.resume_delivers_cancel",
     "Aio.C18.others_unaffected_step",
     "Aio.C18.pool_cowaiter_wakeup_passed_on",
+    "Aio.C18.interim_timer",
+    "Aio.C18.continue_released_no_timer",
     "Aio.C18.effWs_close_indep",
     "Aio.C18.effWs_recv",
     "Aio.C18.effWs_default_close",
@@ -58,6 +60,8 @@ RULE = ("one scripted exchange of the real ClientSession/TCPConnector under virt
         "Every request scenario is run from a calling task with task.cancelling() drawn from {0,1,2} (cancelled and caught "
         "before); 1xx interim responses followed by a stall (oracle only); the real helpers.TimerContext alone, exhaustively: "
         "initial count 0-3 x nesting depth 1-2 x every sequence of timer-fire / external-cancel of length <= 3 (5 in thorough). "
+        "1xx interim responses (whole / split in two segments, during or after the upload) followed by a stall or a late final "
+        "response; Expect: 100-continue with fast / slow (longer than sock_read) / stalled upload. "
         "Distinct by scenario content.")
 TRUSTED_BASE = [
     "asyncio: Task.cancel() is delivered at the next resumption and wins over an available result; call_at fires not "
@@ -73,6 +77,11 @@ TRUSTED_BASE = [
     "co-requests H and C are environment actors whose own exchanges complete at once when unblocked",
 ]
 ASSUMPTIONS = [
+    "behaviour flag interimKeepsTimerWhenSent (after a 1xx interim response, does ResponseHandler.data_received keep the read "
+    "timer when start_timeout() had been called?) is probed from the imported source on every run and written to "
+    "Generated/C18.lean; the model is parametric in it and all theorems build for both values",
+    "an `Expect: 100-continue` request counts as sent only once a 1xx arrived and the body was handed to the transport; a peer "
+    "that never answers the expectation is not a sock_read stall (only total bounds it)",
     "one resolved address family; no proxy, TLS, traces or middlewares; keep-alive responses; consumer reads with "
     "ClientResponse.read() (optionally after a sleep)",
     "the connector's shared, shielded DNS lookup task is connector-owned: it may outlive the request that started it "
@@ -88,6 +97,27 @@ ASSUMPTIONS = [
 TMO_VALUES = [400, 1500, 2500, 4999, 5000, 5001, 7300]
 GAPS = [7, 90, 610, 1800, 3100, 6100]
 T0S = [3, 250, 999, 1000, 1003, 4200]
+
+
+def _probe_interim_keeps_timer():
+    """behaviour probe on the imported source: request sent (start_timeout), a 103 arrives: is the read timer still armed?"""
+    import asyncio
+    from unittest import mock
+    from aiohttp.client_proto import ResponseHandler
+    loop = asyncio.new_event_loop()
+    try:
+        p = ResponseHandler(loop)
+        tr = mock.Mock()
+        tr.is_closing.return_value = False
+        p.connection_made(tr)
+        p.set_response_params(read_timeout=1000.0)
+        p.start_timeout()
+        p.data_received(b"HTTP/1.1 103 Early Hints\r\n\r\n")
+        armed = p._read_timeout_handle is not None
+        p._drop_timeout()
+        return armed
+    finally:
+        loop.close()
 
 
 def generate(repo):
@@ -112,6 +142,9 @@ def generate(repo):
         f"def writerLimit : Nat := {http_writer.StreamWriter.LIMIT if hasattr(http_writer.StreamWriter, 'LIMIT') else 65536}\n"
         "/-- `DEFAULT_WS_CLIENT_TIMEOUT.ws_close`, in ms -/\n"
         f"def wsCloseDefaultMs : Nat := {int(round(ws * 1000))}\n"
+        "/-- probed: after a 1xx interim response `ResponseHandler.data_received` keeps the read timer running\n"
+        "when `start_timeout()` had been called for this request -/\n"
+        f"def interimKeepsTimerWhenSent : Bool := {'true' if _probe_interim_keeps_timer() else 'false'}\n"
         "end Aio.Gen.C18\n")
     return {"AioModel/Generated/C18.lean": body}
 
@@ -476,18 +509,27 @@ INTERIM = [b"HTTP/1.1 103 Early Hints\r\nLink: </x>; rel=preload\r\n\r\n", b"HTT
 
 
 def gen_interim(rng):
-    """(oracle only while finding C18-K4 is open — the model describes the bounded behaviour) one or two 1xx
-    interim responses, then the peer stalls before / inside the final head, or answers late"""
+    """one or two 1xx interim responses (whole or cut in two segments), then the peer stalls before / inside the
+    final head, or answers late; optionally while a large upload is still stalled (request not sent yet)"""
     sc = {"t0": rng.choice(T0S), "total": None, "connect": None, "sock_connect": None, "sock_read": None, "holder": None,
-          "dns": None, "co": None, "cancel": None, "stall": "headers", "oracle_only": 1, "interim": 1}
+          "dns": None, "co": None, "cancel": None, "stall": "headers", "interim": 1}
     sc[rng.choice(["sock_read", "sock_read", "sock_read", "total"])] = rng.choice(TMO_VALUES)
     t = sc["t0"] + rng.choice([7, 90])
     sc["conn"] = [t]
     resp = []
+    if rng.random() < 0.25:
+        sc["body"] = 70000
+        sc["wresume"] = rng.choice([-1, t + rng.choice([2000, 6000])])
     for _ in range(rng.choice([1, 1, 2])):
         w = rng.choice(INTERIM)
         t += rng.choice([7, 90, 610])
-        resp.append([t, w.hex(), len(w), 0, 0, 0])
+        if rng.random() < 0.3:
+            k = rng.randrange(1, len(w))
+            resp.append([t, w[:k].hex(), k, 0, 0, 0, 0])
+            t += rng.choice([7, 90, 1800])
+            resp.append([t, w[k:].hex(), len(w) - k, 0, 0, 0, 1])
+        else:
+            resp.append([t, w.hex(), len(w), 0, 0, 0, 1])
     how = rng.choice(["stall", "stall", "parthead", "late"])
     wire, headlen, payload = build_response(rng, "cl", 2)
     if how == "parthead":
@@ -499,6 +541,55 @@ def gen_interim(rng):
         resp.append([t, wire.hex(), len(wire), 1, 2, 1])
         sc["stall"] = "none"
     sc["resp"] = resp
+    return sc
+
+
+def gen_expect100(rng):
+    """`Expect: 100-continue` with a large body: the peer answers `100 Continue` (whole or in two segments) or
+    never; afterwards the upload is fast, slow (longer than sock_read — must NOT time out) or stalled for ever;
+    then the final response comes, stalls, or is preceded by another interim response"""
+    sc = {"t0": rng.choice(T0S), "total": None, "connect": None, "sock_connect": None, "sock_read": None, "holder": None,
+          "dns": None, "co": None, "cancel": None, "stall": "none", "interim": 1, "expect100": 1, "body": 70000}
+    sc[rng.choice(["sock_read", "sock_read", "sock_read", "total"])] = rng.choice(TMO_VALUES)
+    t = sc["t0"] + rng.choice([7, 90])
+    sc["conn"] = [t]
+    resp = []
+    w = INTERIM[2]
+    cont = rng.choice(["whole", "whole", "split", "never"])
+    if cont == "never":
+        sc["stall"] = "headers"
+        sc["resp"] = []
+        return sc
+    t += rng.choice([7, 90, 610])
+    if cont == "split":
+        k = rng.randrange(1, len(w))
+        resp.append([t, w[:k].hex(), k, 0, 0, 0, 0])
+        t += rng.choice([7, 90])
+        resp.append([t, w[k:].hex(), len(w) - k, 0, 0, 0, 1])
+    else:
+        resp.append([t, w.hex(), len(w), 0, 0, 0, 1])
+    up = rng.choice(["fast", "slow", "slow", "never"])
+    if up == "slow":
+        t += rng.choice([610, 3100, 9000])
+        sc["wresume"] = t
+    elif up == "never":
+        sc["wresume"] = -1
+        sc["stall"] = "send"
+    after = rng.choice(["final", "final", "stall", "103-then-stall", "late"])
+    wire, headlen, payload = build_response(rng, "cl", 2)
+    if up != "never":
+        if after == "103-then-stall":
+            t += rng.choice([7, 610])
+            resp.append([t, INTERIM[0].hex(), len(INTERIM[0]), 0, 0, 0, 1])
+            sc["stall"] = "headers"
+        elif after == "stall":
+            sc["stall"] = "headers"
+        else:
+            t += rng.choice([7, 610]) if after == "final" else rng.choice([3100, 9000])
+            resp.append([t, wire.hex(), len(wire), 1, 2, 1, 0])
+    sc["resp"] = resp
+    if rng.random() < 0.15:
+        sc["cancel"] = t + rng.choice([1, 90, 2500])
     return sc
 
 
@@ -571,7 +662,7 @@ def model_line(sc):
     if sc.get("wresume") is not None and sc["wresume"] >= 0:
         add(sc["wresume"], 6, "W")
     for j, q in enumerate(sc.get("resp", [])):
-        add(q[0], 7 + j, f"B{q[2]}.{q[3]}.{q[4]}.{q[5]}")
+        add(q[0], 7 + j, f"B{q[2]}.{q[3]}.{q[4]}.{q[5]}" + (".1" if (len(q) > 6 and q[6]) else ""))
     if sc.get("peof") is not None:
         add(sc["peof"], 900, "E")
     if sc.get("cancel") is not None:
@@ -583,7 +674,7 @@ def model_line(sc):
     wstall = 1 if (sc.get("body", 0) > 65536 and sc.get("wresume") is not None) else 0
     return (f"run total={o(sc['total'])} connect={o(sc['connect'])} sc={o(sc['sock_connect'])} sr={o(sc['sock_read'])} "
             f"limit1={limit1} dns={0 if sc.get('dns') is None else 1} naddr={sc.get('naddr', 1)} wstall={wstall} "
-            f"think={sc.get('think', 0)} buf={sc.get('bufsize', 65536)} https={1 if sc.get('tls') is not None else 0} cd={sc.get('cd', 0)} c0={sc.get('c0', 0)} co={1 if co else 0} " + " ".join(toks))
+            f"think={sc.get('think', 0)} buf={sc.get('bufsize', 65536)} https={1 if sc.get('tls') is not None else 0} cd={sc.get('cd', 0)} x100={sc.get('expect100', 0)} c0={sc.get('c0', 0)} co={1 if co else 0} " + " ".join(toks))
 
 
 def impl_line(out):
@@ -619,6 +710,37 @@ def bound(start, d, thr=5000):
 
 
 TIMEOUTS = ("E_TIMEOUT", "E_CONN_TIMEOUT", "E_SOCK_TIMEOUT")
+
+
+def interim_times(sc, tr):
+    """instants at which a delivered segment completed a 1xx interim response"""
+    return [q[0] for q in sc.get("resp", []) if len(q) > 6 and q[6] and q[0] in tr["delivered"]]
+
+
+def sent_time(sc, tr):
+    """instant at which the request (head and body) had been handed to the transport completely, None = never"""
+    if not tr["established"]:
+        return None
+    start = tr["established"][0]
+    if sc.get("expect100"):
+        it = interim_times(sc, tr)
+        if not it:
+            return None
+        start = it[0]
+    if sc.get("body", 0) > 65536 and sc.get("wresume") is not None:
+        return sc["wresume"] if sc["wresume"] >= start else None
+    return start
+
+
+def peer_owes_marks(sc, tr, upto):
+    """instants from which the peer owes the client bytes: the request fully sent, and every delivery — except one
+    that completed an interim response while the request body was not sent yet (then the peer waits for US)"""
+    sent = sent_time(sc, tr)
+    it = set(interim_times(sc, tr))
+    marks = [t for t in tr["delivered"] if t <= upto and not (t in it and (sent is None or t < sent))]
+    if sent is not None and sent <= upto:
+        marks.append(sent)
+    return sorted(set(marks))
 
 
 def oracle(ctx, sc, out):
@@ -664,10 +786,9 @@ def oracle(ctx, sc, out):
                 f"sock_connect={sc['sock_connect']} from {tr['attempts'][0]}: no connection by {b}, request ended {end}, attempts at {tr['attempts']}",
                 phase=len(tr["attempts"]) <= 1)
     if sc.get("sock_read") and tr["established"] and tr["eof_at"] is None:
-        wstall = sc.get("body", 0) > 65536 and sc.get("wresume") is not None
-        sent = tr["established"][0] if not wstall else (sc["wresume"] if sc["wresume"] >= 0 else None)
-        marks = [t for t in tr["delivered"]] + ([sent] if sent is not None else [])
-        if marks:
+        marks = peer_owes_marks(sc, tr, INF)
+        everything = [t for t in tr["delivered"]] + ([sent_time(sc, tr)] if sent_time(sc, tr) is not None else [])
+        if marks and max(marks) == max(everything):      # the latest event is one after which the peer owes us bytes
             last = max(marks)
             b = bound(last, sc["sock_read"])
             if think_end is not None:
@@ -683,14 +804,10 @@ def oracle(ctx, sc, out):
     # ---- a sock_read timeout may fire only after the peer was silent for sock_read while the client was
     #      willing to read (request sent, transport not paused by the client itself)
     if r == "E_SOCK_TIMEOUT" and sc.get("sock_read"):
-        wstall = sc.get("body", 0) > 65536 and sc.get("wresume") is not None
-        sent = None
-        if tr["established"]:
-            sent = tr["established"][0] if not wstall else (sc["wresume"] if (sc["wresume"] >= 0 and sc["wresume"] <= E) else None)
+        sent = sent_time(sc, tr)
         if tr["eof_at"] is not None:
             E = min(E, tr["eof_at"])      # once the whole response has arrived the peer's silence is no stall
-        starts = sorted(set([t for t in tr["delivered"] if t <= E] + ([sent] if sent is not None else []) +
-                            [t for t, k in tr["pauses"] if k == "r" and t <= E]))
+        starts = sorted(set(peer_owes_marks(sc, tr, E) + [t for t, k in tr["pauses"] if k == "r" and t <= E]))
         pause_starts = sorted(t for t, k in tr["pauses"] if k == "p" and t <= E)
         best = 0
         def paused_at(x):      # paused by the client at instant x (after the events of that instant)
@@ -699,7 +816,8 @@ def oracle(ctx, sc, out):
         for i, b in enumerate(starts):
             if paused_at(b):
                 continue
-            stop = min([E] + [x for x in starts if x > b] + [p for p in pause_starts if p >= b])
+            stop = min([E] + [x for x in starts if x > b] + [x for x in tr["delivered"] if x > b] +
+                       [p for p in pause_starts if p >= b])
             best = max(best, stop - b)
         if best < sc["sock_read"]:
             bad("false-timeout/sock_read" + ("/compressed-slow-consumer" if sc.get("gz") else ""),
@@ -1001,6 +1119,7 @@ def check(ctx):
     cases += [gen_dns_after(ctx.rng) for _ in range(n // 12)]
     cases += [gen_compressed_slow(ctx.rng) for _ in range(n // 60)]
     cases += [gen_interim(ctx.rng) for _ in range(n // 40)]
+    cases += [gen_expect100(ctx.rng) for _ in range(n // 40)]
     for sc in cases:
         # the calling task may already carry handled cancellation requests (request made from an
         # `except CancelledError:` handler, or after a swallowed cancel): cancelling() in {0, 1, 2}
